@@ -18,6 +18,10 @@ pub enum Fault {
     Append(usize),
     /// replace the content by the content of the sibling (same type) at this position in the listing
     SwapWith(usize),
+    /// packs only: the authentic trailer (sealed header + length field) of the pack at this position
+    /// in the listing - possibly the pack's own - is appended (an extension that ends in a valid
+    /// header)
+    AppendTrailerOf(usize),
     /// the same plaintext sealed under another key
     OtherKey,
     /// index only: list one pack twice / drop one blob entry / drop one pack entry
@@ -35,6 +39,7 @@ impl Fault {
             Fault::Flip { .. } => "flip",
             Fault::Append(_) => "append",
             Fault::SwapWith(_) => "swap",
+            Fault::AppendTrailerOf(_) => "append-trailer",
             Fault::OtherKey => "other-key",
             Fault::IndexDupPack(_) => "index-dup-pack",
             Fault::IndexDropBlob(..) => "index-drop-blob",
@@ -146,6 +151,11 @@ pub fn faults_for(raw: &RawKey, store: &Store, tpe: FileType, id: &Id, dense: bo
             v.push(Fault::SwapWith(i));
         }
     }
+    if tpe == FileType::Pack {
+        for i in 0..sibs.len() {
+            v.push(Fault::AppendTrailerOf(i));
+        }
+    }
     if tpe != FileType::Key {
         v.push(Fault::OtherKey);
     }
@@ -188,6 +198,16 @@ pub fn apply(raw: &RawKey, other: &RawKey, store: &Store, tpe: FileType, id: &Id
             let sib = *store.ids(tpe).get(*i)?;
             let sd = store.get(tpe, &sib)?.clone();
             st.put(tpe, id, sd);
+        }
+        Fault::AppendTrailerOf(i) => {
+            let sib = *store.ids(tpe).get(*i)?;
+            let sd = store.get(tpe, &sib)?.clone();
+            let n = sd.len();
+            let hl = u32::from_le_bytes(sd.get(n.checked_sub(4)?..)?.try_into().ok()?) as usize;
+            let trailer = sd.get(n.checked_sub(4 + hl)?..)?;
+            let mut v = data.to_vec();
+            v.extend_from_slice(trailer);
+            st.put(tpe, id, v.into());
         }
         Fault::OtherKey => {
             if tpe == FileType::Pack {
